@@ -3,7 +3,7 @@ NEXT ONext
 CONSTANTS
   Species = {"A", "B", "C", "D"}
   Catalog <- Cat8
-  MaxR = 3
+  MaxR = 2
   KVals <- K3
   Orders <- OrdOne
   FullOrder = FALSE
